@@ -97,3 +97,69 @@ def c14(work, tier, seed, replay):
 
 
 CHECKS["C14"] = c14
+
+
+# ----------------------------------------------------------------------------- C18
+
+BOUNDARY = [0, 1, 9, 10, 99, 100, 255, 256, 998, 999, 1000, 1001, 1999, 2000, 9999, 10000, 99999, 100000, 999998, 999999, 1000000, 1000001, 1999999, 2000000,
+            9999999, 99999999, 999999998, 999999999, 1000000000, 1000000001, 1000999, 1001000, 123456789, 2147483]
+
+
+def c18(work, tier, seed, replay):
+    rep = Report("C18", tier, seed, "model_checking")
+    rng = random.Random(seed)
+    build_driver()
+    idx = set(BOUNDARY) | {rng.randrange(0, 10 ** 9) for _ in range(40 if tier == "quick" else 400)} | {rng.randrange(0, 10 ** 6) for _ in range(20)}
+    widths = {1, 2, 128, 255, 256} if tier == "quick" else set(range(1, 257, 17)) | {1, 2, 255, 256}
+    c = {"Height": 8, "Levels": set(range(0, 8)), "Indices": idx, "Widths": widths}
+    d = work.sub("tilepath")
+    shutil.copy(os.path.join(SPEC, "TilePath.tla"), d)
+    open(os.path.join(d, "run.cfg"), "w").write(cfg_text(init_next=("TInit", "TNext"), constants=c))
+    rc, out, dt = sh(["tlc", "-workers", "4", "-metadir", os.path.join(d, "md"), "-config", "run.cfg", "TilePath.tla"], cwd=d, timeout=1800,
+                     env=dict(os.environ, JAVA_TOOL_OPTIONS="-Xss64m"))
+    r = TLCResult(rc, out, dt)
+    if not r.ok:
+        raise Inconclusive("TilePath evaluation failed: %s\n%s" % (r.error or r.violated, out[-2000:]))
+    vecs = r.prints("TILE")
+    rep.add_model("TilePath(levels 0..7 x %d indices x %d widths)" % (len(idx), len(widths)), r)
+    rep.cov["transitions"] = len(vecs)
+    vp, tp = work.path("tiles.jsonl"), work.path("tile.ndjson")
+    open(vp, "w").write("\n".join(vecs) + "\n")
+    o, dt = run_driver(["tile", "-in", vp, "-out", tp, "-pairs", "300" if tier == "quick" else "1200", "-samples", "300" if tier == "quick" else "3000",
+                        "-seed", str(seed), "-workers", str(NCPU)], timeout=6000)
+    rep.notes.append(o.strip() + " (%.0fs)" % dt)
+    events = read_ndjson(tp)
+    fails = []
+    lines = open(tp).read().splitlines(True)
+    for start in range(0, len(lines), 150000):
+        cp = work.path("tilechunk.ndjson")
+        open(cp, "w").writelines(lines[start:start + 150000])
+        jr = tlc(work, "Trace_Tile", cfg_text(spec="JSpec", constants=dict(c, Indices={0}, Widths={1}, Levels={0}, TraceFile=cp), action_constraints=["Monitor"], postcondition="Done"),
+                 name="judge-tile", workers=1, timeout=3600, heap="12g")
+        if not jr.ok:
+            raise Inconclusive("tile judge failed: %s\n%s" % (jr.error or jr.violated, jr.out[-3000:]))
+        for f in map(json.loads, jr.prints("FAIL")):
+            fails.append(["FAIL", f["id"], f["name"], f["i"] + start, f["run"], f["k"], f["sig"]])
+        os.remove(cp)
+    seqfam.settle(rep, "C18", fails, events, {"Height": 8})
+    paths = [e for e in events if e["e"] == "tile.path"]
+    proofs = [e for e in events if e["e"] == "tile.proof"]
+    rep.cov["evaluations"] = len(events)
+    rep.cov["traces_validated_against_impl"] = 1
+    rep.cov["distinct_nontrivial"] = len({(e["l"], e["n"], e["w"]) for e in paths}) + len({(e["from"], e["to"]) for e in proofs})
+    rep.cov["tile_paths"] = len(paths)
+    rep.cov["proof_pairs"] = len(proofs)
+    rep.cov["max_proof_len"] = max([e["pflen"] for e in proofs] or [0])
+    rep.cov["rule"] = ("paths: TLC evaluates TilePath.tla on levels 0..7 x {every carry boundary of the x%03d encoding and neighbours, seeded random indices up to 10^9} x widths; the real SumDB client "
+                       "(through the feeder's tile reader, which maps width 256 to 'full tile') requests each tile from a stub server; the request must equal the specified path and tlog.Tile.Path(), and "
+                       "tlog.ParseTilePath must parse it back to the same tile.  proofs: the real sumdb feeder (FeedLog, one cycle) against a stub SumDB (x/mod's reference server over a generated tree) in front "
+                       "of the real witness for ALL pairs 1 <= from < to <= N (quick 300, thorough 1200) plus sampled pairs up to 2^20 incl. tile boundaries; each proof must be accepted by the independent RFC 6962 "
+                       "verifier and by the witness; distinct = distinct tiles + distinct size pairs")
+    rep.cov["exhaustive"] = False
+    for e in paths[:1] + proofs[:1]:
+        rep.sample(e)
+    rep.assumptions += ["indices are sampled (every carry boundary included); TLC integers limit indices to < 2^31"]
+    return rep.finish()
+
+
+CHECKS["C18"] = c18
